@@ -370,6 +370,10 @@ func IPv6FindUpperProtocol(packet []byte) (nextHeader uint8, offset int, isFragm
 			anyFragment = true
 			// Non-first fragments carry no transport header, report the fragmented protocol and stop
 			if packet[offset+2] != 0 || packet[offset+3]&0xf8 != 0 {
+				// An extension header here means the upper layer protocol is only in the first fragment
+				if isIPv6ExtHeader(packet[offset]) {
+					return packet[offset], offset, true, anyFragment, ErrIPv6CouldNotFindPayload
+				}
 				return packet[offset], offset, true, anyFragment, nil
 			}
 			nextHeader = packet[offset]
@@ -391,7 +395,20 @@ func IPv6FindUpperProtocol(packet []byte) (nextHeader uint8, offset int, isFragm
 			return nextHeader, offset, isFragment, anyFragment, nil
 		}
 	}
+	// Walk limit reached: an extension header is never a result, a terminal header must start inside the packet
+	if isIPv6ExtHeader(nextHeader) || offset > len(packet) {
+		return nextHeader, offset, isFragment, anyFragment, ErrIPv6CouldNotFindPayload
+	}
 	return nextHeader, offset, isFragment, anyFragment, nil
+}
+
+// isIPv6ExtHeader reports whether proto is an extension header IPv6FindUpperProtocol walks
+func isIPv6ExtHeader(proto uint8) bool {
+	switch proto {
+	case 0, 43, 44, 51, 60:
+		return true
+	}
+	return false
 }
 
 func CreateICMPEchoResponse(packet, out []byte) []byte {
